@@ -1349,7 +1349,6 @@ func (c *lexCtx) l8EmptyByteString() {
 	}
 }
 
-
 // possibleConsts: v is an integer constant, or a phi (of phis) of integer constants: the values it can take.
 func possibleConsts(v ssa.Value, depth int) ([]int64, bool) {
 	if k, ok := constIntVal(v); ok {
@@ -1375,7 +1374,6 @@ func possibleConsts(v ssa.Value, depth int) ([]int64, bool) {
 	}
 	return out, len(out) > 0
 }
-
 
 // quantityWidth: the width in bits of the KMIP quantity a text-reader method parses, when it is narrower than the
 // Go integer carrying it (0 otherwise): item tags are three bytes.
